@@ -15,7 +15,7 @@ _g('ec_enc_bit_logp', replace=['ec_enc_normalize'])
 _g('ec_enc_icdf', replace=['ec_enc_normalize'], timeout=3600, tier='off')
 _g('ec_enc_icdf16', replace=['ec_enc_normalize'], tier='off')
 _g('ec_enc_bits', replace=['ec_write_byte_at_end'], unwind=6, cls='F')
-_g('ec_enc_uint', replace=['ec_encode', 'ec_enc_bits', 'ec_read_byte', 'ec_read_byte_from_end', 'ec_dec_normalize'])
+_g('ec_enc_uint', replace=['ec_encode', 'ec_enc_bits'])
 _g('ec_enc_patch_initial_bits')
 PTRDIFF = (r'arithmetic overflow on signed - in \(\(_this->buf \+', 'CBMC 6.11 reports a signed-overflow on any pointer difference with a negative result '
            '(reproduced on a 3-line program); the term is the compile-time type check 0*((dst)-(src)) of OPUS_MOVE')
